@@ -112,9 +112,14 @@ def r6_tolerance_strictness(ctx):
             ok = t in ("abs(tol*abs(m).max())", "np.abs(tol*np.abs(np.diff(y)).max())")
             ctx.check(ok, f"{q.split('#')[0]}: the tolerance is relative to the largest sample-to-sample difference", s, t)
     ctx.check(n >= 4, f"tolerance rule bound to {n} comparisons in find_unique and findap", LOC + ":1", nontrivial=False)
-    fa = ctx.src.func(CYC, "findap")
-    t = utext(fa)
-    if "locate.find_unique" in t:
+    # the numpy variant is whichever definition of findap de-duplicates through locate.find_unique (the two are defined under
+    # `if not HAVE_NUMBA: ... else: ...`; which one comes first in the file is irrelevant)
+    cands = [ctx.src.func(CYC, q) for q in ("findap", "findap#2") if ctx.src.has_func(CYC, q)]
+    fa = next((f for f in cands if "locate.find_unique" in utext(f)), None)
+    if fa is None:
+        ctx.error("findap: no variant that de-duplicates through locate.find_unique was found", CYC + ":1")
+    else:
+        t = utext(fa)
         ok = "u=locate.find_unique(y,tol)" in t and "s=np.sign(np.diff(yu))" in t and "pv[1:-1]=np.abs(np.diff(s))==2" in t and "pv=np.ones(yu.size,bool)" in t
         ctx.check(ok, "findap (numpy variant): works on de-duplicated samples; interior reversals are slope-sign changes; the first sample is always kept", fa)
         ok = "PV=np.zeros(y.size,bool)" in t and "PV[u]=pv" in t
